@@ -519,10 +519,84 @@ void closeRace(pbt::Case &c, bool producerSide)
   if (st->ok) c.fail("C10/bq/closed-op-succeeded", "the blocked call returned true although nothing but close() happened");
 }
 
+// Fixed schedule for "close() in a transient state": two callers are parked on the same side, ONE
+// releasing operation wakes one of them (notify_one), and close() runs at once - before the woken
+// caller has re-acquired the mutex, so the queue is momentarily neither empty nor full. The other
+// caller must still be woken by close(). Repeated on fresh queues (the woken caller occasionally wins
+// the race for the mutex, then the state is no longer transient and the round proves nothing).
+void closeTransient(pbt::Case &c, bool producerSide)
+{
+  pbt::watchdog(120, "C10/bq/case-stalled");
+  c.describe(std::string("6 rounds: two ") + (producerSide ? "queue() callers parked on a full queue (cap 2), one tryDequeue()"
+                                                           : "dequeue() callers parked on an empty queue (cap 2), one tryQueue()") +
+             ", close() immediately afterwards");
+  for (int round = 0; round < 6; ++round)
+  {
+    struct S
+    {
+      c10::BQ q{2};
+      std::atomic<int> inCall{0}, done{0};
+      bool ok[2] = {false, false};
+      c10::Item got[2];
+    };
+    auto st = std::make_shared<S>();
+    if (producerSide)
+      for (int i = 0; i < 2; ++i)
+        if (!st->q.tryQueue(c10::mk(9, i)))
+        {
+          c.fail("C10/bq/put-refused-with-space", "tryQueue refused on an open queue with space");
+          return;
+        }
+    std::vector<std::thread> th;
+    for (int w = 0; w < 2; ++w)
+      th.emplace_back(
+        [st, producerSide, w]
+        {
+          st->inCall.fetch_add(1, std::memory_order_acq_rel);
+          st->ok[w] = producerSide ? st->q.queue(c10::mk(w, 100)) : st->q.dequeue(st->got[w]);
+          st->done.fetch_add(1, std::memory_order_acq_rel);
+        });
+    c10::waitBounded(c10::kBoundSeconds, [&] { return st->inCall.load(std::memory_order_acquire) == 2; });
+    sched::sleepUs(20000); // both are parked now
+    c10::Item out;
+    bool rel = producerSide ? st->q.tryDequeue(out) : st->q.tryQueue(c10::mk(9, 0));
+    st->q.close();
+    if (!rel)
+    {
+      c.fail("C10/bq/put-refused-with-space", "the releasing tryQueue/tryDequeue failed although it had room / an item");
+      for (auto &t : th) t.join();
+      return;
+    }
+    if (!c10::waitBounded(c10::kBoundSeconds, [&] { return st->done.load(std::memory_order_acquire) == 2; }))
+    {
+      c.failTimed("C10/bq/blocked-after-close",
+                  pbt::Fmt() << "round " << round << ": close() returned right after one releasing operation; " << st->done.load()
+                             << " of 2 parked " << (producerSide ? "producers" : "consumers") << " came back, queue size=" << st->q.size()
+                             << " closed=" << st->q.isClosed());
+      for (auto &t : th) t.detach(); // cannot be woken any more
+      return;
+    }
+    for (auto &t : th) t.join();
+    // queued items stay retrievable, nothing lost or invented
+    int have = 0;
+    c10::Item it;
+    while (st->q.tryDequeue(it)) ++have;
+    int want = producerSide ? 1 + (st->ok[0] ? 1 : 0) + (st->ok[1] ? 1 : 0) : 1 - (st->ok[0] ? 1 : 0) - (st->ok[1] ? 1 : 0);
+    if (have != want || (st->ok[0] && st->ok[1]))
+    {
+      c.fail("C10/bq/lost-or-duplicated-item", pbt::Fmt() << "round " << round << ": " << have << " items left in the closed queue, expected " << want
+                                                          << " (callers returned " << st->ok[0] << "/" << st->ok[1] << ")");
+      return;
+    }
+  }
+}
+
 } // namespace
 
 PBT_REGRESSION(close_wakes_consumer_about_to_park) { closeRace(c, false); }
 PBT_REGRESSION(close_wakes_producer_about_to_park) { closeRace(c, true); }
+PBT_REGRESSION(close_in_transient_state_wakes_second_consumer) { closeTransient(c, false); }
+PBT_REGRESSION(close_in_transient_state_wakes_second_producer) { closeTransient(c, true); }
 
 PBT_PROPERTY(bq_model) { bqModel(src, c); }
 PBT_PROPERTY(ring_model) { ringModel(src, c); }
